@@ -120,5 +120,48 @@ func comparableBothDirections(c *fw.Ctx, rule string) {
 	c.Check(both, rule, "ComparableTo/assignable-in-both-directions", fd.Pos(),
 		"mutual assignability must be asked first->second and second->first, each with the operand of its source side (asked: %d->%d %v, %d->%d %v)%s: otherwise `iface == concrete` and `concrete == iface` get different verdicts",
 		1, 2, asked[dir{ops[0], ops[1]}], 2, 1, asked[dir{ops[1], ops[0]}], detail)
+	// the untyped-operand arms: untypedComparable(pkg, b, pv, other) where b is the *types.Basic form of one
+	// operand's type must be given that same operand (its constant decides e.g. whether 2.0 is integral) and
+	// the other operand's type
+	basicOf := map[types.Object]types.Object{} // v (from V.(*types.Basic)) -> operand
+	ast.Inspect(fd.Body, func(m ast.Node) bool {
+		as, ok := m.(*ast.AssignStmt)
+		if !ok || len(as.Rhs) != 1 || len(as.Lhs) < 1 {
+			return true
+		}
+		ta, ok := unparen(as.Rhs[0]).(*ast.TypeAssertExpr)
+		if !ok || ta.Type == nil {
+			return true
+		}
+		if id, ok := as.Lhs[0].(*ast.Ident); ok {
+			if s := side(ta.X); s != nil && info.Defs[id] != nil {
+				basicOf[info.Defs[id]] = s
+			}
+		}
+		return true
+	})
+	nu, okU := 0, true
+	bad := ""
+	ast.Inspect(fd.Body, func(m ast.Node) bool {
+		call, ok := m.(*ast.CallExpr)
+		if !ok || !isFunc(callee(info, call), fw.Mod, "untypedComparable") || len(call.Args) != 4 {
+			return true
+		}
+		nu++
+		var b types.Object
+		if id, ok := unparen(call.Args[1]).(*ast.Ident); ok {
+			b = basicOf[info.Uses[id]]
+		}
+		pv, other := operand(call.Args[2]), side(call.Args[3])
+		if b == nil || pv != b || other == nil || other == b {
+			okU = false
+			bad = exprString(call)
+		}
+		return true
+	})
+	if nu > 0 {
+		c.Check(okU && nu >= 2, rule, "ComparableTo/untyped-arms-pair-operand-with-its-type", fd.Pos(),
+			"each untyped-operand arm must pass the untyped operand itself together with its basic type and the other side's type (%d arms); mismatched: %s — `x == 2.0` and `2.0 == x` would get different verdicts", nu, bad)
+	}
 	_ = token.NoPos
 }
